@@ -187,6 +187,21 @@ def check_case(case, rec):
 
             # (only with references by name: a reference handed over as an object stays with that object, by the caller's choice)
             replaced = case["replace"] % n if case.get("replace") is not None and build == "api" else None
+            if build == "api_shared_lists":
+                # a model description kept in Python lists and used twice: first for a program in which the same names are
+                # stand-alone commands (acyclic; it is run), then -- the very same list objects -- for this model
+                first = Program(libraries=LIBS)
+                shared = {}
+                for i in case["order"]:
+                    first.add_command(node_cls, name(i), {})
+                for i in case["order"]:
+                    shared[i] = arguments(i)
+                    if shared[i]:
+                        first.add_command(node_cls, "Y%d" % i, dict(shared[i]))
+                first.run()
+                vlog.reset(cap=40 * (n + 10) + 2000)
+                for i in case["order"]:
+                    prog.add_command(node_cls, name(i), dict(shared[i]))
             if build in ("api_after_run", "dict_after_run"):
                 # a finished program edited into this model: every command first stands alone (no references), the
                 # program is run, then the commands with references are deleted and put back with them -- through
@@ -207,7 +222,7 @@ def check_case(case, rec):
                         prog.add_command(node_cls, name(i), arguments(i))
                     else:
                         prog.commands[name(i)] = node_cls(name(i), [Argument(k, v) for k, v in arguments(i).items()], program=prog)
-            for i in ([] if build in ("api_after_run", "dict_after_run") else case["order"]):
+            for i in ([] if build in ("api_after_run", "dict_after_run", "api_shared_lists") else case["order"]):
                 # a model edited the documented way: one command first added without its references, later deleted
                 # and added again under the same name with them
                 prog.add_command(node_cls, name(i), {} if i == replaced else arguments(i))
@@ -354,7 +369,7 @@ def small_graphs(ctx):
                             yield {"n": n, "adj": adj, "kinds": kinds, "order": list(order), "lib": "testlib", "pick": bits + len(kinds[0]), "build": build}
                             yield {"n": n, "adj": adj, "kinds": kinds, "order": list(order), "lib": "testlib", "pick": bits + len(kinds[0]), "build": build,
                                    "replace": bits % n}
-                        for build in ("api_after_run", "dict_after_run"):
+                        for build in ("api_after_run", "dict_after_run", "api_shared_lists"):
                             yield {"n": n, "adj": adj, "kinds": kinds, "order": list(order), "lib": "testlib", "pick": bits + len(kinds[0]), "build": build}
             # every reference mentioned twice by its command (once as written, once more in its list parameter)
             if bits % 2 == 0 or not ctx.quick:
@@ -412,7 +427,7 @@ def larger_graphs(draw):
     lib = draw(st.sampled_from(["testlib", "testlib", "testlib", "builtin"]))
     return {"n": n, "adj": adj, "kinds": kinds, "order": order, "lib": lib, "fuzzy": draw(st.booleans()), "pick": draw(st.integers(0, 9)),
             "voff": draw(st.integers(0, 6)), "poff": draw(st.integers(0, 5)), "sat": draw(st.sampled_from(["mixed", "true", "false", "zero"])),
-            "printvars": draw(st.sampled_from([None, None, None, 0, 1, 5, 31, 10])), "build": draw(st.sampled_from(["source", "source", "api", "api_objects", "api_after_run", "dict_after_run"])),
+            "printvars": draw(st.sampled_from([None, None, None, 0, 1, 5, 31, 10])), "build": draw(st.sampled_from(["source", "source", "api", "api_objects", "api_after_run", "dict_after_run", "api_shared_lists"])),
             "replace": draw(st.sampled_from([None, None, 0, 1, 2, 3, 4]))}
 
 
